@@ -81,6 +81,16 @@ def fixed_calls():
     c.append(("pretty", _mk("prettify", "A <- if DS_1#Me_1 > 5 then DS_1 else DS_2; /* c1 */ B <- nvl(DS_1, 0) + DS_2; // tail\n")))
     c.append(("pretty2", _mk("prettify", "define operator f (x dataset) returns dataset is x * 2 end operator; R <- f(DS_1); /* z */")))
     c.append(("ast", _mk("create_ast", "A := DS_1[calc Me_3 := Me_1 + Me_2][filter Me_3 > 1]; B <- A + DS_2;")))
+    c.append(("validate", _mk("validate_dataset", "", TP_STRUCT, TP_DATA)))
+    c.append(("validate-v", _mk("validate_dataset", "", V_STRUCT, V_DATA)))
+    c.append(("gensdmx", dict(_mk("generate_sdmx", "define operator f (x dataset) returns dataset is x * 2 end operator; R <- f(DS_1); S <- R[filter Me_1 > 1];"),
+                              kwargs={"agency_id": "MD", "id": "TS1"})))
+    o = _mk("run", "DS_r <- DS_1[calc Me_3 := Me_1 / 3]; DS_s <- sum(DS_2 group by Id_1);", TP_STRUCT, TP_DATA)
+    o["output_folder"] = True
+    c.append(("run-files", o))
+    o = _mk("run", "DS_r <- DS_1 * 1.123456789; DS_t <- DS_2[filter Id_1 > 1];", TP_STRUCT, TP_DATA, time_period_output_format="sdmx_reporting", output_format="parquet")
+    o["output_folder"] = True
+    c.append(("run-files-parquet", o))
     c.append(("syntax", _mk("create_ast", "A <- DS_1 +;")))
     c.append(("syntax2", _mk("run", "A <- DS_1 [ filter ;", TP_STRUCT, TP_DATA)))
     return c
